@@ -58,8 +58,12 @@ FSym(n, m, err)         == [F0 EXCEPT !.k = "sym", !.n = n, !.m = m, !.err = err
 FEopm(n, m, fin)        == [F0 EXCEPT !.k = "sym", !.n = n, !.m = m, !.eopm = TRUE, !.fin = fin]
 FKend(n, fin)           == [F0 EXCEPT !.k = "kend", !.n = n, !.fin = fin]
 FPad(n)                 == [F0 EXCEPT !.k = "pad4", !.n = n]
+\* a notification (LZMA_NO_CHECK / LZMA_UNSUPPORTED_CHECK / LZMA_GET_CHECK) returned once after the header that
+\* reveals the Check type (stream_decoder.c, auto_decoder.c, lzip_decoder.c: the sequence is advanced BEFORE returning)
+FNote(code)             == [F0 EXCEPT !.k = "note", !.err = code]
 
-Opt0 == [bcj |-> 0, allowEopm |-> TRUE, rederive |-> TRUE]
+Opt0 == [bcj |-> 0, allowEopm |-> TRUE, rederive |-> TRUE, noteStuck |-> FALSE]
+Notifs == {"NO_CHECK", "UNSUPPORTED_CHECK", "GET_CHECK"}
 
 \* ---------------------------------------------------------------- coder state
 SInit == [buf |-> <<>>, pos |-> 0, filtered |-> 0, ended |-> FALSE]
@@ -108,6 +112,9 @@ Run(inp, c, ai, ao, fin, loc, uin, out) ==
                    THEN IF ri - take = 0 THEN Res([c EXCEPT !.pos = c.pos + take], uin + take, out, "OK")
                         ELSE Res([c EXCEPT !.pos = c.pos + take], uin + take + (IF f.eat THEN 1 ELSE 0), out, f.err)
                    ELSE Run(inp, next, ai, ao, fin, Locals(inp, next), uin + take, out)
+      [] f.k = "note" ->
+           \* opt.noteStuck: the sequence is NOT advanced before the early return (every call reports it again)
+           Res(IF inp.opt.noteStuck THEN c ELSE next, uin, out, f.err)
       [] f.k = "pad4" ->
            \* zero bytes c.pos+1..f.n of this field, then either the end of the input or a non-zero byte
            LET zeros == Min(ri, f.n - c.pos)
@@ -214,12 +221,17 @@ SumM(F, i) == IF i > Len(F) THEN 0 ELSE (IF F[i].k = "sym" /\ ~F[i].eopm THEN F[
 OutTotal(inp) == SumM(inp.fields, 1)
 Big(inp) == OutTotal(inp) + 2 * inp.opt.bcj + 1
 
+\* a notification is part of the observation: which one and after how many input bytes
+NoteMark(code, tin) == 9000 + 100 * (CASE code = "NO_CHECK" -> 1 [] code = "UNSUPPORTED_CHECK" -> 2 [] OTHER -> 3) + tin
+
 \* The whole input and unlimited output space with LZMA_FINISH, through the allow_buf_error rule of lzma_code().
 RECURSIVE OS(_, _, _, _, _)
 OS(inp, c, tin, out, stalled) ==
     LET r == Code(inp, c, inp.have - tin, Big(inp), TRUE)
         noProg == r.uin = 0 /\ Len(r.out) = 0
-    IN IF r.ret # "OK" THEN <<out \o r.out, r.ret, tin + r.uin>>
+    IN IF r.ret \in Notifs /\ r.c = c THEN <<out, "STUCK", tin>>      \* (only with opt.noteStuck)
+       ELSE IF r.ret \in Notifs THEN OS(inp, r.c, tin + r.uin, out \o r.out \o <<NoteMark(r.ret, tin + r.uin)>>, FALSE)
+       ELSE IF r.ret # "OK" THEN <<out \o r.out, r.ret, tin + r.uin>>
        ELSE IF noProg /\ stalled THEN <<out, "BUF_ERROR", tin>>
        ELSE OS(inp, r.c, tin + r.uin, out \o r.out, noProg)
 OneShot(inp) == OS(inp, CInit, 0, <<>>, FALSE)
